@@ -18,5 +18,5 @@ Extraction "model.ml"
   main_run merge_fields find_config
   smart_quotes ellipses
   walk include_explicit expand_glob resolve
-  read_code_span read_destination read_title read_fenced render_code_span link_destination normalize_title_quotes strip_backslash escape_backslashes read_atx escape_closing_hashes read_ol_marker read_row
+  read_code_span read_destination read_title read_fenced render_code_span link_destination normalize_title_quotes strip_backslash escape_backslashes escape_backslashes_inner read_atx escape_closing_hashes read_ol_marker read_row
   dedent prepare_body render_parsed transform_doc render_doc doc_cleanups coalesce_doc fill_markdown parser_input.
